@@ -522,6 +522,7 @@ Section Denom.
     eapply hoare_bind with (Q1 := fun _ s => JC c s /\ Rk dn a (assets s)).
     { apply (HS_with_assets c _ (Rk dn a)); [apply HS_of_inv; jc_auto c | assets_frame]. }
     intros sh.
+    match goal with |- hoare _ (if ?b then _ else _) _ _ => destruct b end; [apply hoare_panic; auto|].
     match goal with |- hoare _ (if ?b then _ else _) _ _ => destruct b end; [apply hoare_fail; auto|].
     eapply hoare_bind with (Q1 := fun _ s => JC c s /\ Rk dn a (assets s)).
     { apply (HS_with_assets c _ (Rk dn a)); [apply HS_of_inv; jc_auto c | assets_frame]. }
@@ -583,6 +584,7 @@ Section Denom.
     { apply Hstep; [destruct odd; [apply jc_claim_any | apply HS_of_inv, jc_claim_validator_rewards] | destruct odd; assets_frame]. }
     intros dvi1; cbv beta.
     eapply hoare_bind; [apply Hstep; [apply HS_of_inv; jc_auto c | assets_frame]|]. intros sh; cbv beta.
+    match goal with |- hoare _ (if ?b then _ else _) _ _ => destruct b end; [apply hoare_panic; auto|].
     match goal with |- hoare _ (if ?b then _ else _) _ _ => destruct b end; [apply hoare_fail; auto|].
     eapply hoare_bind; [apply Hstep; [apply HS_of_inv, inv_gets | assets_frame]|]. intros blocked; cbv beta.
     destruct blocked; [apply hoare_fail; auto|].
